@@ -43,7 +43,7 @@ man = {
         {"name": "E1/scheduler", "path": "/verif/overlay/repo/verifshim", "kind_free_text": "controlled cooperative scheduler for the real code (sync, atomic, channels, go, time, rand rewritten by engine/cmd/instrument on every run); preemption bounding and round-robin delay bounding; synchronisation-operation and statement granularity; engine/sched glue explores scenarios bound-major with fair time shares", "serves_properties": [p for p in ["C01", "C02", "C03", "C06", "C07", "C16", "C17", "C18", "C34", "C40", "C43"] if p in have]},
         {"name": "txpipe", "path": "/verif/engine/txpipe", "kind_free_text": "the real db19 transaction pipeline (checker, merger, workers, tickers) under E1 with a reference model of the tables; scheduled tier, synchronous operation-interleaving tier, sequential schema-snapshot tier", "serves_properties": [p for p in ["C01", "C02", "C03", "C06", "C07", "C16"] if p in have]},
         {"name": "E2/dbmodel", "path": "/verif/engine/model/dbmodel", "kind_free_text": "reference model of schema + data with an explicit-state BFS driver that replays every transition on a fresh real database (admin requests, transactions, persist, close+reopen)", "serves_properties": [p for p in ["C04", "C05", "C19", "C20", "C21"] if p in have]},
-        {"name": "cspipe", "path": "/verif/engine/model/cspipe", "kind_free_text": "real server connection over an in-process pipe with a raw wire client (client-server differential and authorization state machine)", "serves_properties": [p for p in ["C08", "C40", "C41"] if p in have]},
+        {"name": "cspipe", "path": "/verif/engine/model/cspipe", "kind_free_text": "real server connection over an in-process pipe with a raw wire client (client-server differential and authorization state machine)", "serves_properties": [p for p in ["C40", "C41"] if p in have]},
     ],
     "checks": checks,
     "not_applicable": na,
